@@ -694,6 +694,22 @@ def binding(ctx):
                             hb = P.fns.get(re.sub(r'(::\{closure#\d+\})+$', '', h.id))
                             if a2[0] == 'arg' and h.kind != 'Closure' and hb is not None and passed_scope(hb, a2[1], depth + 1)[0]:
                                 continue
+                            if a2[0] == 'upvar' and h.kind == 'Closure':
+                                # the caller is a closure that captured the scope: look at what its creator captured
+                                par = P.fns.get(h.parent)
+                                cap = None
+                                if par is not None:
+                                    for bi_ in par.normal_blocks():
+                                        for st_ in par.blocks[bi_]['stmts']:
+                                            if st_['k'] == 'Assign' and st_['rv']['k'] == 'Aggregate' and st_['rv'].get('closure_id') == h.id and a2[1] < len(st_['rv']['ops']):
+                                                cap = strip(par.expr_of_operand(st_['rv']['ops'][a2[1]]))
+                                if cap is not None:
+                                    while cap[0] in ('ref', 'deref') or (cap[0] == 'call' and cap[2] and re.search(r'(::deref|::as_ref|::as_slice|::borrow)$', cap[1])):
+                                        cap = strip(cap[1] if cap[0] in ('ref', 'deref') else cap[2][0])
+                                    if find_calls(cap, 'Module::scope'):
+                                        continue
+                                    if cap[0] == 'arg' and par.kind != 'Closure' and passed_scope(par, cap[1], depth + 1)[0]:
+                                        continue
                             return False, len(cs_)
                         return True, len(cs_)
                     ok, ncs = passed_scope(holder, pi)
